@@ -210,6 +210,34 @@ def t_long_loop(rng, lvl, u):
 print(ll%(u)s(2))""" % {"u": u, "body": body}
 
 
+@template(tags=("extended_format_edges",))
+def t_ext_edges(rng, lvl, u):
+    """Shapes that have tripped the 'extended' listing formatters: a subscript store as the first thing in a code
+    object, a zero-argument call of a function made on the spot, in-place modulo, unicode constants with control
+    characters."""
+    uni = "u" if lvl < (3, 0) else ""
+    return """def ee1%(u)s(a):
+    a[0] = 1
+def ee2%(u)s(a, i):
+    a[i] = a
+    a[i][i] = i
+def ee3%(u)s():
+    return (lambda: 7)()
+def ee4%(u)s(a, b):
+    a %%= b
+    a = a %% b
+    return a
+class EE5%(u)s(object):
+    x = {}
+    x[1] = 2
+ee6%(u)s = %(uni)s'line1\\nline2\\ttab\\x0b\\x0c quote\\' dq" end'
+def ee7%(u)s():
+    def inner():
+        return 1
+    return inner()
+print(ee3%(u)s(), ee4%(u)s(7, 3), ee7%(u)s(), len(ee6%(u)s))""" % {"u": u, "uni": uni}
+
+
 @template(tags=("closure", "cell_param"))
 def t_closure(rng, lvl, u):
     depth = rng.randrange(1, 5)
@@ -614,7 +642,7 @@ def wrap_in_class(code, u):
     return "class Wrap%s(object):\n%s\n    pass" % (u, ind)
 
 
-NO_WRAP = {"t_shared_frozenset", "t_shared_big_tuple", "t_many_names", "t_misc", "t_import", "t_pep695", "t_line_gaps"}
+NO_WRAP = {"t_ext_edges", "t_shared_frozenset", "t_shared_big_tuple", "t_many_names", "t_misc", "t_import", "t_pep695", "t_line_gaps"}
 NO_CLASS_WRAP = NO_WRAP | {"t_long_loop", "t_class3", "t_closure", "t_shared", "t_class2", "t_async", "t_control", "t_deep",
                            "t_backward_lines", "t_long_columns", "t_py2_long", "t_ints", "t_floats", "t_complex",
                            "t_strings", "t_bytes", "t_comp", "t_misc3", "t_try_nest", "t_match", "t_except_star",
